@@ -369,77 +369,71 @@ func runC11(c *Ctx) {
 	if sfd == nil {
 		c.viol("C11.R5", "anchor-lost:ComponentHandler.ServeHTTP", "", "templ.ComponentHandler.ServeHTTP not found")
 	} else {
-		// every way out of ServeHTTP has gone through exactly one of the two handlers; the streamed one only under
-		// the StreamResponse flag
-		sfc := newFnCFG(sfd.Body, info)
-		var dispatch []*ast.CallExpr
-		var streamed, buffered []*ast.CallExpr
-		ast.Inspect(sfd.Body, func(n ast.Node) bool {
-			if call, ok := n.(*ast.CallExpr); ok {
-				if fn := calleeOf(info, call); fn != nil && fn.Pkg() == p.Types {
-					switch fn.Name() {
-					case "ServeHTTPStreamed":
-						streamed = append(streamed, call)
-						dispatch = append(dispatch, call)
-					case "ServeHTTPBuffered":
-						buffered = append(buffered, call)
-						dispatch = append(dispatch, call)
-					}
-				}
-			}
-			return true
-		})
+		// over the paths of ServeHTTP: every path calls exactly one of the two handlers; the streamed one only on paths
+		// that took the StreamResponse flag as true, the buffered one on all others
+		den := &denum{info: info, pkg: p.Types, inits: map[types.Object]ast.Expr{}, limit: 5000}
+		den.finish(den.run(sfd.Body.List, []dstate{{env: map[types.Object]ast.Expr{}}}))
 		why := ""
-		var exits []ast.Node
-		ast.Inspect(sfd.Body, func(n ast.Node) bool {
-			if r, ok := n.(*ast.ReturnStmt); ok {
-				exits = append(exits, r)
-			}
-			return true
-		})
-		if len(sfd.Body.List) > 0 {
-			if _, isRet := sfd.Body.List[len(sfd.Body.List)-1].(*ast.ReturnStmt); !isRet {
-				exits = append(exits, sfd.Body.List[len(sfd.Body.List)-1])
-			}
-		}
-		for _, ex := range exits {
-			handled := false
-			for _, d := range dispatch {
-				if sfc.dominates(d, ex) || (d.Pos() >= ex.Pos() && d.End() <= ex.End()) {
-					handled = true
+		nbuf := 0
+		if den.undecided != "" {
+			c.undec("C11.R5", funcKey(p, sfd)+"|buffered-unless-streaming", c.pos(sfd.Pos()), "ServeHTTP contains "+den.undecided)
+		} else {
+			for _, pth := range den.paths {
+				streamed, buffered := 0, 0
+				for _, st := range pth.Trace {
+					ast.Inspect(st, func(n ast.Node) bool {
+						if call, ok := n.(*ast.CallExpr); ok {
+							if fn := calleeOf(info, call); fn != nil && fn.Pkg() == p.Types {
+								switch fn.Name() {
+								case "ServeHTTPStreamed":
+									streamed++
+								case "ServeHTTPBuffered":
+									buffered++
+								}
+							}
+						}
+						return true
+					})
 				}
-			}
-			if !handled {
-				why = "the exit at " + c.pos(ex.Pos()) + " is reached without ServeHTTPBuffered or ServeHTTPStreamed having been called: the client receives an empty 200 instead of the page, the 500 or the error handler's response"
-			}
-		}
-		inFlagBranch := func(call *ast.CallExpr) bool {
-			in := false
-			ast.Inspect(sfd.Body, func(n ast.Node) bool {
-				if is, ok := n.(*ast.IfStmt); ok && is.Body.Pos() <= call.Pos() && call.End() <= is.Body.End() {
-					if se, ok := ast.Unparen(is.Cond).(*ast.SelectorExpr); ok && se.Sel.Name == "StreamResponse" {
-						in = true
+				if pth.Ret != nil {
+					ast.Inspect(pth.Ret, func(n ast.Node) bool {
+						if call, ok := n.(*ast.CallExpr); ok {
+							if fn := calleeOf(info, call); fn != nil && fn.Pkg() == p.Types {
+								switch fn.Name() {
+								case "ServeHTTPStreamed":
+									streamed++
+								case "ServeHTTPBuffered":
+									buffered++
+								}
+							}
+						}
+						return true
+					})
+				}
+				flag, flagKnown := false, false
+				for _, pc := range pth.Conds {
+					if se, ok := ast.Unparen(pc.Expr).(*ast.SelectorExpr); ok && se.Sel.Name == "StreamResponse" {
+						flag, flagKnown = pc.Val, true
 					}
 				}
-				return true
-			})
-			return in
-		}
-		for _, sc := range streamed {
-			if !inFlagBranch(sc) {
-				why = "ServeHTTPStreamed is called outside the `if <handler>.StreamResponse` branch: responses are streamed (status and partial body committed before a render error is known) although buffering is the default"
+				nbuf += buffered
+				switch {
+				case streamed+buffered == 0:
+					why = "a path leaves ServeHTTP without ServeHTTPBuffered or ServeHTTPStreamed having been called: the client receives an empty 200 instead of the page, the 500 or the error handler's response"
+				case streamed+buffered > 1:
+					why = "a path calls the response handlers more than once"
+				case streamed == 1 && !(flagKnown && flag):
+					why = "ServeHTTPStreamed is called on a path that did not test StreamResponse as true: responses are streamed (status and partial body committed before a render error is known) although buffering is the default"
+				case buffered == 1 && flagKnown && flag:
+					why = "ServeHTTPBuffered is called under the StreamResponse flag"
+				}
 			}
-		}
-		for _, bc := range buffered {
-			if inFlagBranch(bc) {
-				why = "ServeHTTPBuffered is called under the StreamResponse flag"
+			if nbuf == 0 && why == "" {
+				why = "ServeHTTP never calls ServeHTTPBuffered"
 			}
+			c.check(why == "", "C11.R5", funcKey(p, sfd)+"|buffered-unless-streaming", c.pos(sfd.Pos()), fmt.Sprintf("%d paths: each calls exactly one of the two handlers; the streamed one only under StreamResponse", len(den.paths)),
+				"ServeHTTP: "+why)
 		}
-		if len(buffered) == 0 {
-			why = "ServeHTTP never calls ServeHTTPBuffered"
-		}
-		c.check(why == "", "C11.R5", funcKey(p, sfd)+"|buffered-unless-streaming", c.pos(sfd.Pos()), "every exit of ServeHTTP is dominated by one of the two handlers; the streamed one only under StreamResponse",
-			"ServeHTTP: "+why)
 	}
 	c.floor("C11.R3", 4)
 	pooledBufferLifetime(c, "C11.R6")
